@@ -32,10 +32,13 @@ ASSUMPTIONS = [
 MIN_NONTRIVIAL_FRACTION = 0.15
 RULE += " Added after the seeded rounds: " + 'Also generated: values of the wrong JSON type for their field (bool for str, number for bool, ...; an enumerated single-field table as well), compact separators, numeric strings with thousands separators, and earlier folds (valid and invalid) on the same validator.'
 RULE += " Histories may read or reset the validator's statistics between folds (get_statistics / reset_statistics; an enumerated table over 2 schemas x 6 wrappers x 6 strategy orders x 2 call lists): fold and fold_enhanced must keep agreeing."
+RULE += ' Strings contain characters JSON writes as escapes (astral, BMP, control, unpaired surrogates) and a writer style emits non-ASCII as \\\\uXXXX escapes.'
 
 TYPES = ["int", "float", "str", "bool", "list_int", "list_str", "opt_int", "opt_str", "nested"]
 STRS = ["plain", "None of the above", "True story", "it's", 'a "quoted" word', "{brace}", "[1,2]", "x,}", "key: 'v'", "```", "NaN", "undefined", "",
-        "False alarm", "a, b", "line\nbreak", "é☃", ": undefined", "{\"k\": 1}", "1,234 items", "nil", "x,y", "9,999"]
+        "False alarm", "a, b", "line\nbreak", "é☃", ": undefined", "{\"k\": 1}", "1,234 items", "nil", "x,y", "9,999",
+        # characters that JSON writes as escapes: astral (surrogate pair), BMP, control, and an unpaired surrogate (legal for json.loads)
+        "\U0001f600 ok", "caf\u00e9", "tab\there", "\ud800", "x\udfffy", "\u0000nul"]
 WRAPS = ["fence_json", "fence", "xml", "prose_pre", "prose_post", "decoy_empty", "decoy_second", "concat"]
 _str = st.one_of(st.sampled_from(STRS), st.text(max_size=6))
 
@@ -86,7 +89,7 @@ def _case(draw):
             sem.append(["mistype", draw(st.sampled_from(names)), draw(st.sampled_from([True, False, None, 1.5, 0, 1, "", "7", [1], {"k": 1}, "true", "yes"]))])
     style = {"kq": draw(st.sampled_from(['"', '"', '"', "'", ""])), "vq": draw(st.sampled_from(['"', '"', "'"])),
              "tc": draw(st.sampled_from([False, False, True])), "lit": draw(st.sampled_from(["json", "json", "py", "js-undefined"])),
-             "compact": draw(st.sampled_from([False, False, True]))}
+             "compact": draw(st.sampled_from([False, False, True])), "ascii": draw(st.sampled_from([False, False, True]))}
     wrap = draw(st.lists(st.sampled_from(WRAPS), max_size=3))
     trunc = draw(st.sampled_from([None] * 9 + [3, 10, 25]))
     pre = None
